@@ -454,6 +454,28 @@ static void debugger (void *a) {
 	}
 }
 
+/* MODE 7 (F15 shape, added with the repair): reader-mode native waiters and ONE nsync_wait_n caller wait on
+   the cv; the waker sets the flag / adds the token in a write section and then signals or broadcasts under a READ lock: when a
+   reader is first on the cv queue it can acquire, the nsync_wait_n record is not a mutex waiter, so wake_waiters takes the mutex
+   spinlock (setting MU_WAITING) and transfers nobody. */
+static void m7_waker (void *a) {
+	int nwait = (int) (long) a;
+	for (;;) {
+		int q;
+		nsync_mu_lock (&mu); vrt_acquired (&mu, 1);
+		q = (int) vrt_sh_get (5);
+		if (q >= nwait) break;
+		vrt_releasing (&mu, 1); nsync_mu_unlock (&mu);
+		vrt_yield ();
+	}
+	go_flag = 1; tokens++;
+	vrt_releasing (&mu, 1); nsync_mu_unlock (&mu);
+	nsync_mu_rlock (&mu); vrt_acquired (&mu, 0);
+	if (vrt_rand (2)) nsync_cv_signal (&cv); else nsync_cv_broadcast (&cv);
+	vrt_point ("after-wake-under-rlock");
+	vrt_releasing (&mu, 0); nsync_mu_runlock (&mu);
+	nsync_cv_broadcast (&cv);
+}
 int main (void) {
 	int mode = vrt_opt ("MODE", (int) vrt_rand (5));
 	int i;
@@ -469,7 +491,14 @@ int main (void) {
 	vrt_register (&cv, sizeof (cv), "cv0");
 	vrt_set_write_monitor (monitor);
 	vrt_set_snapshot (snapshot);
-	if (mode == 3) {
+	if (mode == 7) {
+		int nr = 1 + (int) vrt_rand (2);
+		for (i = 0; i < nr; i++) { snprintf (nm[i], 8, "r%d", i); vrt_thread (nm[i], rwaiter_counted, NULL); }
+		vrt_thread ("n", nconsumer, (void *) (long) 0);
+		vrt_thread ("wk", m7_waker, (void *) (long) nr);
+		if (vrt_rand (2)) vrt_thread ("x", m2_reader, NULL);
+		if (vrt_rand (3) == 0) vrt_thread ("y", m2_writer, NULL);
+	} else if (mode == 3) {
 		int nc = 2 + (int) vrt_rand (3), np = 1 + (int) vrt_rand (2), left, nn = 0;
 		left = nc;
 		for (i = 0; i < nc; i++) {
